@@ -94,6 +94,10 @@ pub fn check_value(v: &RVal, acc: &mut Acc) {
 pub fn spaces(tier: Tier) -> Vec<Space<'static>> {
     let mut sp: Vec<Space> = vec![];
     {
+        let tv = refmodel::gen::tagv_docs();
+        sp.push(Space::new("tag-like payloads and keyword keys", tv.len() as u64, move |i, acc| check_value(&tv[i as usize], acc)));
+    }
+    {
         // documents that are just one string, including strings that spell JSON documents
         let mut whole: Vec<String> = univ::sstr().clone();
         for v in univ::d2().iter() {
